@@ -142,7 +142,9 @@ def run(ctx):
                     runs.append(Run("i%d" % n, files, argv))
                     meta.append(("injection", name, path, sc, mode))
     # unparsable / hostile file contents
-    raw = [b'{"type": "object", "properties": {"a": null}}', b'{"type": "object", "definitions": {"a": null}}', b'{"type": "object", "properties": {"o": {"anyOf": [{"type": "object"}, null]}}}', b"", b"{", b"[1,2", b"{\"type\": \"object\",}", b"nul", b"\x00\x01\x02", b"{\"type\": \"object\"}}", b"[]", b"\"str\"", b"42", b"null",
+    raw = [b'{"type": "object", "properties": {"a": null}}', b'{"type": "object", "definitions": {"a": null}}',
+           b'{"$defs": {"A": {"type": "object", "properties": {"p": {"$ref": "#/$defs/Z"}}}, "Z": null}, "type": "object"}',
+           b'{"type": "object", "properties": {"p": {"$ref": "#/definitions/z"}, "l": {"type": "array", "items": {"$ref": "#/definitions/z"}}}, "definitions": {"z": null}}', b'{"type": "object", "properties": {"o": {"anyOf": [{"type": "object"}, null]}}}', b"", b"{", b"[1,2", b"{\"type\": \"object\",}", b"nul", b"\x00\x01\x02", b"{\"type\": \"object\"}}", b"[]", b"\"str\"", b"42", b"null",
            b"{\"properties\": 5}", b"{\"type\": {\"a\": 1}}", b"{\"$defs\": []}", b"{\"required\": \"x\"}", b"{\"enum\": 5}", b"\xff\xfe{}", b"{" * 2000]
     yraw = [b"a: [1, 2", b"\t- x", b"key: : :", b"- a\nb: c", b"%YAML 9.9\n---\n", b"a: &x [*x]", b"? [\n", b"\x00"]
     for i, b in enumerate(raw):
